@@ -219,6 +219,10 @@ func (i *input) lex() {
 					Text:      content.String(),
 				})
 			}
+			// The string has been consumed up to and including its closing
+			// quote. Look at the next rune as a potential start of a lexeme
+			// instead of skipping it.
+			continue
 		default:
 			startLine := i.pos.line
 			var comment bytes.Buffer
@@ -250,6 +254,9 @@ func (i *input) lex() {
 					EndLine:   i.pos.line,
 					Text:      comment.String(),
 				})
+				// The comment has been consumed up to and including its end
+				// marker: do not skip the rune that follows it.
+				continue
 			} else if i.singleLineComment() { // Single line comment
 				for {
 					if i.eof() {
